@@ -9,11 +9,21 @@ import FV.Proofs.Spectral
   is established by the last `normalize` call whatever happened before it.  This is how the "for every random
   seed and number of trials" quantifier of the property is discharged.
 
-  Explicit hypothesis (the `|x_i| ≤ 1e-9` escape): `normalize` only bounds coordinates whose magnitude exceeds
-  `10e-10` before scaling; the others are multiplied by the same scale without taking part in its choice.
-  The theorems carry `delta < |pre_i|` for the vector `pre` handed to the last `normalize` call; the harness
-  watches every `normalize` call of its runs for entries in that region (none seen) and exhibits the escape at
-  function level.
+  THE `_partial` HYPOTHESIS (the `|x_i| ≤ 1e-9` escape, finding `C14-delta-escape`, `findings/C14_delta_escape.json`):
+  `normalize` only bounds coordinates whose magnitude exceeds `10e-10` before scaling; the others are multiplied
+  by the same scale without taking part in its choice (`normalize_delta_escape` exhibits a coordinate pushed
+  beyond its span).  That this cannot happen inside `spectral_layout` under the admissibility hypotheses is NOT
+  proved (it is a statement about the values of the power iteration).  The headline theorems are therefore named
+  `…_partial` and carry `delta < |pre_i|`, where `pre` is not an existential: it is the ghost field `preX` / `preY`
+  of the record returned by the model — the very vector handed to the LAST `normalize` call of that dimension in
+  the winning trial (`die_post`).  The harness watches every `normalize` call of its runs for entries in that
+  region (none in > 10^7 calls) and exhibits the escape at function level.
+
+  Admissibility (`Admissible`: ≥ 4 movable modules, every module on some net, every disc fits the die): only
+  "discs fit" is needed for the post-condition; "every module on a net" is what makes the centroid step total
+  (`centroids_return`).  That the run returns at all (orthogonality `assert`, non-zero denominators of the
+  power iteration) is NOT proved: every theorem is conditional on `.ok`, and non-returning runs on admissible inputs
+  are searched for by the harness (reported as `operation-raised`).
 
   NOT proved (float matters, decided by search in `harness/props/c14.py`): IEEE rounding (the disc is inside
   up to `1e-9 * size`), the orthogonality `assert` and the divisions not failing on admissible inputs (the
@@ -57,27 +67,27 @@ theorem normalize_delta_escape :
 /-! ### the loop: what is left in `coord[d]` -/
 
 /-- `loop_post`: for one dimension, whatever the initial row, the other rows, the iteration bound (0 included) and
-    the number of iterations actually made, the row left in `coord[d]` is an output of `normalize` for the spans
-    of that dimension, and no other row is modified. -/
+    the number of iterations actually made, the row left in `coord[d]` is the output of `normalize` — for the spans
+    of that dimension — on the recorded vector (third component), and no other row is modified. -/
 theorem loop_post (c : Cst α) (span : List α) (maxIter : Nat) (coord : List (List α)) (d : Nat)
-    (res : List (List α) × Nat) (hd : d < coord.length) (h : processDim c span maxIter coord d = .ok res) :
-    (∃ pre, normalize pre span c.fixed = .ok (res.1.getD d [])) ∧
+    (res : List (List α) × Nat × List α) (hd : d < coord.length) (h : processDim c span maxIter coord d = .ok res) :
+    normalize res.2.2 span c.fixed = .ok (res.1.getD d []) ∧
     res.1.length = coord.length ∧ ∀ j, j ≠ d → res.1.getD j [] = coord.getD j [] :=
   ⟨processDim_normalized c span maxIter coord d res hd h, processDim_frame c span maxIter coord d res h⟩
 
-/-- the same for the loop alone: every iteration ends with `normalize`. -/
-theorem iteration_post (c : Cst α) (span : List α) (coord : List (List α)) (d : Nat) (r : List α × α)
-    (h : iterBody c span coord d = .ok r) : ∃ pre, normalize pre span c.fixed = .ok r.1 :=
+/-- the same for the loop body alone: every iteration ends with `normalize` on the vector it records. -/
+theorem iteration_post (c : Cst α) (span : List α) (coord : List (List α)) (d : Nat) (r : List α × α × List α)
+    (h : iterBody c span coord d = .ok r) : normalize r.2.2 span c.fixed = .ok r.1 :=
   iterBody_normalized c span coord d r h
 
-/-- `spectral_layout_die`, every draw list: both returned rows are `normalize` outputs for the spans
-    `size/2 - radius_i` of their dimension, and have one entry per node. -/
+/-- `spectral_layout_die`, every draw list: both returned rows are the `normalize` outputs of the recorded vectors
+    `preX`, `preY` for the spans `size/2 - radius_i` of their dimension, and have one entry per node. -/
 theorem die_post (o : Ops α) (adj : List (List (Edge α))) (mass : List α) (W H : α) (init0 init1 : List α)
     (fixed : List Bool) (draws : List α) (maxIter : Nat) (r : DieResult α)
     (h : spectralLayoutDie o adj mass W H init0 init1 fixed draws maxIter = .ok r)
     (hl0 : init0.length = adj.length) (hl1 : init1.length = adj.length) :
-    (∃ pre, normalize pre (maxSpans W (radii o mass)) fixed = .ok r.xs) ∧
-    (∃ pre, normalize pre (maxSpans H (radii o mass)) fixed = .ok r.ys) ∧
+    normalize r.preX (maxSpans W (radii o mass)) fixed = .ok r.xs ∧
+    normalize r.preY (maxSpans H (radii o mass)) fixed = .ok r.ys ∧
     r.xs.length = adj.length ∧ r.ys.length = adj.length :=
   ⟨(sld_normalized o adj mass W H init0 init1 fixed draws maxIter r h).1,
    (sld_normalized o adj mass W H init0 init1 fixed draws maxIter r h).2,
@@ -94,42 +104,39 @@ theorem disc_inside (W H cx cy r : α) (hr : 0 ≤ r) (hx : |cx| ≤ W / 2 - r) 
   rw [abs_le] at h1 h2 hx hy
   exact ⟨by linarith [h1.1, hx.1], by linarith [h1.2, hx.2], by linarith [h2.1, hy.1], by linarith [h2.2, hy.2]⟩
 
-/-- the headline for `spectral_layout_die`: for EVERY draw list and iteration bound, if every disc fits the die
-    (`radius_j ≤ size/2`) then every movable node `i` whose coordinates were not in the `1e-9` escape of the
-    last `normalize` has its disc inside the die. -/
-theorem die_disc_inside (o : Ops α) (adj : List (List (Edge α))) (mass : List α) (W H : α) (init0 init1 : List α)
-    (fixed : List Bool) (draws : List α) (maxIter : Nat) (r : DieResult α)
+/-- `spectral_layout_die`, EVERY draw list and iteration bound: if every disc fits the die (`radius_j ≤ size/2`)
+    then every movable node `i` whose coordinates were not in the `1e-9` escape of the last `normalize` call
+    (`preX`, `preY` of the returned record) has its disc inside the die.  `_partial`: see the header. -/
+theorem die_disc_inside_partial (o : Ops α) (adj : List (List (Edge α))) (mass : List α) (W H : α)
+    (init0 init1 : List α) (fixed : List Bool) (draws : List α) (maxIter : Nat) (r : DieResult α)
     (h : spectralLayoutDie o adj mass W H init0 init1 fixed draws maxIter = .ok r)
     (hl0 : init0.length = adj.length) (hl1 : init1.length = adj.length) (hlm : mass.length = adj.length)
     (hsqrt : ∀ x, 0 ≤ o.sqrt x)
-    (hfit : ∀ j, j < adj.length → vat (radii o mass) j ≤ W / 2 ∧ vat (radii o mass) j ≤ H / 2) :
-    ∃ preX preY, normalize preX (maxSpans W (radii o mass)) fixed = .ok r.xs ∧
-      normalize preY (maxSpans H (radii o mass)) fixed = .ok r.ys ∧
-      ∀ i, i < adj.length → fixedAt fixed i = false → delta < |vat preX i| → delta < |vat preY i| →
-        DiscInDie W H (vat r.xs i + W / 2) (vat r.ys i + H / 2) (vat (radii o mass) i) := by
-  obtain ⟨⟨preX, hX⟩, ⟨preY, hY⟩, lx, ly⟩ := die_post o adj mass W H init0 init1 fixed draws maxIter r h hl0 hl1
-  refine ⟨preX, preY, hX, hY, ?_⟩
-  intro i hi hf dX dY
+    (hfit : ∀ j, j < adj.length → vat (radii o mass) j ≤ W / 2 ∧ vat (radii o mass) j ≤ H / 2)
+    (i : Nat) (hi : i < adj.length) (hf : fixedAt fixed i = false)
+    (dX : delta < |vat r.preX i|) (dY : delta < |vat r.preY i|) :
+    DiscInDie W H (vat r.xs i + W / 2) (vat r.ys i + H / 2) (vat (radii o mass) i) := by
+  obtain ⟨hX, hY, lx, ly⟩ := die_post o adj mass W H init0 init1 fixed draws maxIter r h hl0 hl1
   have hrl : (radii o mass).length = adj.length := by simp [radii, hlm]
   have hspan : ∀ (size : α) (j : Nat), j < adj.length → vat (maxSpans size (radii o mass)) j = size / 2 - vat (radii o mass) j := by
     intro size j hj
     unfold maxSpans
     rw [vat_map _ _ _ (by rw [hrl]; exact hj)]; simp
-  have hpx : preX.length = adj.length := by rw [← normalize_length _ _ _ _ hX]; exact lx
-  have hpy : preY.length = adj.length := by rw [← normalize_length _ _ _ _ hY]; exact ly
+  have hpx : r.preX.length = adj.length := by rw [← normalize_length _ _ _ _ hX]; exact lx
+  have hpy : r.preY.length = adj.length := by rw [← normalize_length _ _ _ _ hY]; exact ly
   have hrad : 0 ≤ vat (radii o mass) i := by
     unfold radii; rw [vat_map _ _ _ (by rw [hlm]; exact hi)]; exact hsqrt _
-  have bx := normalize_bound preX _ fixed r.xs hX
+  have bx := normalize_bound r.preX _ fixed r.xs hX
     (fun j hj _ _ => by rw [hspan W j (by rw [← hpx]; exact hj)]; linarith [(hfit j (by rw [← hpx]; exact hj)).1])
     i (by rw [hpx]; exact hi) hf dX
-  have by' := normalize_bound preY _ fixed r.ys hY
+  have by' := normalize_bound r.preY _ fixed r.ys hY
     (fun j hj _ _ => by rw [hspan H j (by rw [← hpy]; exact hj)]; linarith [(hfit j (by rw [← hpy]; exact hj)).2])
     i (by rw [hpy]; exact hi) hf dY
   rw [hspan W i hi] at bx
   rw [hspan H i hi] at by'
   exact disc_inside W H _ _ _ hrad bx by'
 
-/-! ### fixed modules -/
+/-! ### fixed nodes -/
 
 /-- `fixed_unmoved` (coordinates): a fixed node comes back at `initial - size/2`, i.e. its reported position
     `+ size/2` is exactly the initial one — for every draw list. -/
@@ -142,23 +149,46 @@ theorem die_fixed_unmoved (o : Ops α) (adj : List (List (Edge α))) (mass : Lis
   obtain ⟨a, b⟩ := sld_fixed o adj mass W H init0 init1 fixed draws maxIter r h hl0 hl1 i hi hf
   rw [a, b]; exact ⟨by ring, by ring⟩
 
+/-! ### progress of the centroid step -/
+
+/-- when every node has at least one adjacency entry and all weights are positive ("every module is on some net"),
+    the degrees are positive and `calculate_centroids` cannot raise `ZeroDivisionError`. -/
+theorem centroids_return (adj : List (List (Edge α))) (coord : List α) (hl : coord.length = adj.length)
+    (hnet : ∀ es ∈ adj, es ≠ [] ∧ ∀ e ∈ es, 0 < e.weight) :
+    ∃ out, calculateCentroids adj coord (adj.map fun es => nsum (es.map (·.weight))) = .ok out := by
+  apply calculateCentroids_ok
+  intro i hi
+  rw [hl] at hi
+  have : vat (adj.map fun es => nsum (es.map (·.weight))) i = nsum ((adj[i]).map (·.weight)) := by
+    simp [vat, List.getD_eq_getElem?_getD, hi]
+  rw [this, nsum_eq]
+  obtain ⟨h1, h2⟩ := hnet adj[i] (List.getElem_mem hi)
+  exact ne_of_gt (sum_weights_pos _ h1 h2)
+
 /-! ### `Spectral.spectral_layout` -/
 
-/-- structure of a returning run: the guards hold, the graph was built, the coordinates used are those of ONE
-    call of `spectral_layout_die` (the best trial) for SOME draw list, and every module `i` is finished with the
-    centre `best[i] + size/2`. -/
+/-- `spectralLayout` is `spectralLayoutTrace` with the record of the winning trial forgotten. -/
+theorem layout_has_trace (o : Ops α) (mods : List (SMod α β)) (nets : List (SNet α)) (W H : α)
+    (nfl : Nat) (draws : List α) (maxIter : Nat) (out : List (SMod α β)) :
+    spectralLayout o mods nets W H nfl draws maxIter = .ok out ↔
+      ∃ b, spectralLayoutTrace o mods nets W H nfl draws maxIter = .ok (out, b) :=
+  layout_trace o mods nets W H nfl draws maxIter out
+
+/-- structure of a returning run: the graph was built, the record `b` is the result of ONE call of
+    `spectral_layout_die` (the best trial) for SOME draw list, and every module `i` of the output is module `i` of the
+    input finished with the centre `b[i] + size/2`. -/
 theorem layout_structure (o : Ops α) (mods : List (SMod α β)) (nets : List (SNet α)) (W H : α)
-    (nfl : Nat) (draws : List α) (maxIter : Nat) (out : List (SMod α β))
-    (h : spectralLayout o mods nets W H nfl draws maxIter = .ok out) :
-    ∃ adj b dr, buildAdj mods.length nets = .ok adj ∧ adj.length = mods.length ∧
+    (nfl : Nat) (draws : List α) (maxIter : Nat) (out : List (SMod α β)) (b : DieResult α)
+    (h : spectralLayoutTrace o mods nets W H nfl draws maxIter = .ok (out, b)) :
+    ∃ adj dr, buildAdj mods.length nets = .ok adj ∧ adj.length = mods.length ∧
       spectralLayoutDie o adj (mods.map (·.mass)) W H (initCentres mods nfl false) (initCentres mods nfl true)
         (mods.map (·.fixed)) dr maxIter = .ok b ∧
       out.length = mods.length ∧
-      ∀ i m, mods[i]? = some m → ∃ m', out[i]? = some m' ∧
+      ∀ (i : Nat) (m : SMod α β), mods[i]? = some m → ∃ m' : SMod α β, out[i]? = some m' ∧
         finishModule m (vat b.xs i + W / 2, vat b.ys i + H / 2) = .ok m' := by
-  obtain ⟨_, adj, b, dr, ha, hb, hf⟩ := layout_unfold o mods nets W H nfl draws maxIter out h
+  obtain ⟨_, adj, dr, ha, hb, hf⟩ := trace_unfold o mods nets W H nfl draws maxIter out b h
   obtain ⟨hl, hm⟩ := finishAll_spec b.xs b.ys W H mods 0 out hf
-  refine ⟨adj, b, dr, ha, buildAdj_length _ _ _ ha, hb, hl, ?_⟩
+  refine ⟨adj, dr, ha, buildAdj_length _ _ _ ha, hb, hl, ?_⟩
   intro i m hi
   obtain ⟨m', a1, a2⟩ := hm i m hi
   exact ⟨m', a1, by simpa using a2⟩
@@ -172,7 +202,8 @@ theorem areas_nets_unchanged (o : Ops α) (mods : List (SMod α β)) (nets : Lis
     out.length = mods.length ∧ ∀ (i : Nat) (m : SMod α β), mods[i]? = some m → ∃ m' : SMod α β, out[i]? = some m' ∧
       m'.mass = m.mass ∧ m'.fixed = m.fixed ∧ m'.hard = m.hard ∧ m'.terminal = m.terminal ∧ m'.rest = m.rest ∧
       m'.rects.map (fun r => (r.w, r.h)) = m.rects.map (fun r => (r.w, r.h)) := by
-  obtain ⟨adj, b, dr, _, _, _, hl, hm⟩ := layout_structure o mods nets W H nfl draws maxIter out h
+  obtain ⟨b, hb⟩ := (layout_has_trace o mods nets W H nfl draws maxIter out).mp h
+  obtain ⟨adj, dr, _, _, _, hl, hm⟩ := layout_structure o mods nets W H nfl draws maxIter out b hb
   refine ⟨hl, ?_⟩
   intro i m hi
   obtain ⟨m', a1, a2⟩ := hm i m hi
@@ -191,7 +222,8 @@ theorem fixed_unmoved (o : Ops α) (mods : List (SMod α β)) (nets : List (SNet
     (i : Nat) (m : SMod α β) (c : α × α) (hi : mods[i]? = some m) (hf : m.fixed = true) (hc : m.center = some c) :
     ∃ m' : SMod α β, out[i]? = some m' ∧ m'.rects = m.rects ∧ (m.terminal = true → m'.center = some c) ∧
       (m.hard = true → m.terminal = false → m'.center = none) := by
-  obtain ⟨adj, b, dr, _, hal, hb, hl, hm⟩ := layout_structure o mods nets W H nfl draws maxIter out h
+  obtain ⟨b, hb⟩ := (layout_has_trace o mods nets W H nfl draws maxIter out).mp h
+  obtain ⟨adj, dr, _, hal, hb, hl, hm⟩ := layout_structure o mods nets W H nfl draws maxIter out b hb
   obtain ⟨m', a1, a2⟩ := hm i m hi
   obtain ⟨_, _, _, _, _, s6, s7⟩ := finishModule_spec m m' _ a2
   have hil : i < adj.length := by rw [hal]; exact (List.getElem?_eq_some_iff.mp hi).1
@@ -228,66 +260,104 @@ theorem recenter_rigid (c : α × α) (rects out : List (SRect α)) (h : recente
     field_simp
     ring
 
-/-- a movable hard module is moved rigidly onto the centre computed for it, and a soft module gets that centre:
-    `p = best[i] + size/2` is "the position" of module `i` in both cases. -/
-theorem movable_position (o : Ops α) (mods : List (SMod α β)) (nets : List (SNet α)) (W H : α)
-    (nfl : Nat) (draws : List α) (maxIter : Nat) (out : List (SMod α β))
-    (h : spectralLayout o mods nets W H nfl draws maxIter = .ok out) :
-    ∃ adj b dr, buildAdj mods.length nets = .ok adj ∧
-      spectralLayoutDie o adj (mods.map (·.mass)) W H (initCentres mods nfl false) (initCentres mods nfl true)
-        (mods.map (·.fixed)) dr maxIter = .ok b ∧
-      ∀ (i : Nat) (m : SMod α β), mods[i]? = some m → m.fixed = false → ∃ m' : SMod α β, out[i]? = some m' ∧
-        (m.hard = false → m'.center = some (vat b.xs i + W / 2, vat b.ys i + H / 2) ∧ m'.rects = m.rects) ∧
-        (m.hard = true → recenter (vat b.xs i + W / 2, vat b.ys i + H / 2) m.rects = .ok m'.rects) := by
-  obtain ⟨adj, b, dr, ha, _, hb, _, hm⟩ := layout_structure o mods nets W H nfl draws maxIter out h
-  refine ⟨adj, b, dr, ha, hb, ?_⟩
-  intro i m hi hf
-  obtain ⟨m', a1, a2⟩ := hm i m hi
-  obtain ⟨_, _, _, _, _, s6, s7⟩ := finishModule_spec m m' _ a2
-  refine ⟨m', a1, ?_, ?_⟩
-  · intro hh
-    exact ⟨by rw [s6]; simp [hh], by simpa [hh] using s7⟩
-  · intro hh
-    simpa [hh, hf] using s7
+/-- the position of a module in an output: a soft module's centre; a hard module's area-weighted centroid of its
+    rectangles (its centre is dropped by `spectral_layout`). -/
+def Position (m' : SMod α β) (p : α × α) : Prop :=
+  (m'.hard = false → m'.center = some p) ∧
+  (m'.hard = true → (m'.rects.map fun r => r.w * r.h).sum ≠ 0 ∧
+    (m'.rects.map fun r => r.cx * (r.w * r.h)).sum / (m'.rects.map fun r => r.w * r.h).sum = p.1 ∧
+    (m'.rects.map fun r => r.cy * (r.w * r.h)).sum / (m'.rects.map fun r => r.w * r.h).sum = p.2)
 
-/-- the property's main clause for `spectral_layout`: for EVERY draw list, trial count and iteration bound, when
-    the run returns and all discs fit the die, every movable module `i` that is not in the `1e-9` escape has the
-    disc of its area, centred at its position `best[i] + size/2`, inside the die. -/
-theorem layout_disc_inside (o : Ops α) (mods : List (SMod α β)) (nets : List (SNet α)) (W H : α)
-    (nfl : Nat) (draws : List α) (maxIter : Nat) (out : List (SMod α β))
-    (h : spectralLayout o mods nets W H nfl draws maxIter = .ok out)
-    (hsqrt : ∀ x, 0 ≤ o.sqrt x)
-    (hfit : ∀ m ∈ mods, o.sqrt (m.mass / o.pi) ≤ W / 2 ∧ o.sqrt (m.mass / o.pi) ≤ H / 2) :
-    ∃ (b : DieResult α) (preX preY : List α),
-      normalize preX (maxSpans W (radii o (mods.map (·.mass)))) (mods.map (·.fixed)) = .ok b.xs ∧
-      normalize preY (maxSpans H (radii o (mods.map (·.mass)))) (mods.map (·.fixed)) = .ok b.ys ∧
-      ∀ (i : Nat) (m : SMod α β), mods[i]? = some m → m.fixed = false → delta < |vat preX i| → delta < |vat preY i| →
-        DiscInDie W H (vat b.xs i + W / 2) (vat b.ys i + H / 2) (o.sqrt (m.mass / o.pi)) := by
-  obtain ⟨adj, b, dr, ha, hal, hb, _, _⟩ := layout_structure o mods nets W H nfl draws maxIter out h
+/-- every movable module of the output sits at `b[i] + size/2`: a soft module has that centre (rectangles
+    untouched), a hard module was translated rigidly so that its centroid is that point. -/
+theorem movable_position (o : Ops α) (mods : List (SMod α β)) (nets : List (SNet α)) (W H : α)
+    (nfl : Nat) (draws : List α) (maxIter : Nat) (out : List (SMod α β)) (b : DieResult α)
+    (h : spectralLayoutTrace o mods nets W H nfl draws maxIter = .ok (out, b))
+    (i : Nat) (m : SMod α β) (hi : mods[i]? = some m) (hf : m.fixed = false) :
+    ∃ m' : SMod α β, out[i]? = some m' ∧ Position m' (vat b.xs i + W / 2, vat b.ys i + H / 2) ∧
+      (m.hard = false → m'.rects = m.rects) ∧
+      (m.hard = true → ∃ dx dy : α, m'.rects = m.rects.map (fun r => { r with cx := r.cx + dx, cy := r.cy + dy })) := by
+  obtain ⟨adj, dr, _, _, _, _, hm⟩ := layout_structure o mods nets W H nfl draws maxIter out b h
+  obtain ⟨m', a1, a2⟩ := hm i m hi
+  obtain ⟨_, _, s3, _, _, s6, s7⟩ := finishModule_spec m m' _ a2
+  refine ⟨m', a1, ⟨?_, ?_⟩, ?_, ?_⟩
+  · intro hh
+    rw [s3] at hh
+    rw [s6]; simp [hh]
+  · intro hh
+    rw [s3] at hh
+    have hr : recenter (vat b.xs i + W / 2, vat b.ys i + H / 2) m.rects = .ok m'.rects := by simpa [hh, hf] using s7
+    obtain ⟨dx, dy, _, hA, hx, hy⟩ := recenter_rigid _ _ _ hr
+    exact ⟨hA, hx, hy⟩
+  · intro hh
+    simpa [hh] using s7
+  · intro hh
+    have hr : recenter (vat b.xs i + W / 2, vat b.ys i + H / 2) m.rects = .ok m'.rects := by simpa [hh, hf] using s7
+    obtain ⟨dx, dy, e, _⟩ := recenter_rigid _ _ _ hr
+    exact ⟨dx, dy, e⟩
+
+/-- the admissibility hypotheses of the property. -/
+structure Admissible (o : Ops α) (mods : List (SMod α β)) (nets : List (SNet α)) (W H : α) : Prop where
+  /-- at least four movable modules -/
+  movable : 4 ≤ (mods.filter fun m => !m.fixed).length
+  /-- every module is on some net -/
+  onNet : ∀ i, i < mods.length → ∃ e ∈ nets, i ∈ e.pins
+  /-- every disc fits the die -/
+  fits : ∀ m ∈ mods, o.sqrt (m.mass / o.pi) ≤ W / 2 ∧ o.sqrt (m.mass / o.pi) ≤ H / 2
+
+/-- HEADLINE (`_partial`: the `1e-9` escape is a hypothesis, see the header).  For EVERY draw list, trial count and
+    iteration bound, on an admissible input: when the run returns `out` together with the record `b` of its winning
+    trial, every movable module `i` whose coordinates were outside the `1e-9` region in the last `normalize` call of
+    each dimension (`b.preX`, `b.preY`) has, IN `out`, a position `p` (soft: its centre; hard: the centroid of its
+    rectangles) such that the disc of its area centred at `p` lies inside the die. -/
+theorem layout_disc_inside_partial (o : Ops α) (mods : List (SMod α β)) (nets : List (SNet α)) (W H : α)
+    (nfl : Nat) (draws : List α) (maxIter : Nat) (out : List (SMod α β)) (b : DieResult α)
+    (h : spectralLayoutTrace o mods nets W H nfl draws maxIter = .ok (out, b))
+    (hsqrt : ∀ x, 0 ≤ o.sqrt x) (hadm : Admissible o mods nets W H)
+    (i : Nat) (m : SMod α β) (hi : mods[i]? = some m) (hf : m.fixed = false)
+    (dX : delta < |vat b.preX i|) (dY : delta < |vat b.preY i|) :
+    ∃ (m' : SMod α β) (p : α × α), out[i]? = some m' ∧ Position m' p ∧
+      DiscInDie W H p.1 p.2 (o.sqrt (m.mass / o.pi)) := by
+  obtain ⟨adj, dr, ha, hal, hb, _, _⟩ := layout_structure o mods nets W H nfl draws maxIter out b h
+  obtain ⟨m', a1, hpos, _, _⟩ := movable_position o mods nets W H nfl draws maxIter out b h i m hi hf
   have hrad : ∀ j (mj : SMod α β), mods[j]? = some mj → vat (radii o (mods.map (·.mass))) j = o.sqrt (mj.mass / o.pi) := by
     intro j mj hj
     have hjl : j < mods.length := (List.getElem?_eq_some_iff.mp hj).1
     unfold radii
     rw [vat_map _ _ _ (by simpa using hjl), vat_mass_map mods j mj hj]
-  obtain ⟨preX, preY, hX, hY, hd⟩ := die_disc_inside o adj _ W H _ _ _ dr maxIter b hb
+  have hil : i < adj.length := by rw [hal]; exact (List.getElem?_eq_some_iff.mp hi).1
+  have hd := die_disc_inside_partial o adj _ W H _ _ _ dr maxIter b hb
     (by rw [initCentres_length, hal]) (by rw [initCentres_length, hal]) (by simp [hal]) hsqrt
     (by
       intro j hj
       rw [hal] at hj
       have hmj : mods[j]? = some mods[j] := List.getElem?_eq_getElem hj
       rw [hrad j _ hmj]
-      exact hfit _ (List.getElem_mem hj))
-  refine ⟨b, preX, preY, hX, hY, ?_⟩
-  intro i m hi hf dX dY
-  have hil : i < adj.length := by rw [hal]; exact (List.getElem?_eq_some_iff.mp hi).1
-  have := hd i hil (by rw [fixedAt_map mods i m hi]; exact hf) dX dY
-  rwa [hrad i m hi] at this
+      exact hadm.fits _ (List.getElem_mem hj))
+    i hil (by rw [fixedAt_map mods i m hi]; exact hf) dX dY
+  rw [hrad i m hi] at hd
+  exact ⟨m', _, a1, hpos, hd⟩
+
+/-- the same, stated on `spectral_layout` itself: ONE witness `b` ties the output, the escape hypothesis and the
+    conclusion together. -/
+theorem spectral_layout_disc_inside_partial (o : Ops α) (mods : List (SMod α β)) (nets : List (SNet α)) (W H : α)
+    (nfl : Nat) (draws : List α) (maxIter : Nat) (out : List (SMod α β))
+    (h : spectralLayout o mods nets W H nfl draws maxIter = .ok out)
+    (hsqrt : ∀ x, 0 ≤ o.sqrt x) (hadm : Admissible o mods nets W H) :
+    ∃ b : DieResult α, spectralLayoutTrace o mods nets W H nfl draws maxIter = .ok (out, b) ∧
+      ∀ (i : Nat) (m : SMod α β), mods[i]? = some m → m.fixed = false →
+        delta < |vat b.preX i| → delta < |vat b.preY i| →
+        ∃ (m' : SMod α β) (p : α × α), out[i]? = some m' ∧ Position m' p ∧
+          DiscInDie W H p.1 p.2 (o.sqrt (m.mass / o.pi)) := by
+  obtain ⟨b, hb⟩ := (layout_has_trace o mods nets W H nfl draws maxIter out).mp h
+  exact ⟨b, hb, fun i m hi hf dX dY =>
+    layout_disc_inside_partial o mods nets W H nfl draws maxIter out b hb hsqrt hadm i m hi hf dX dY⟩
 
 /-! ### non-vacuity -/
 
 section Examples
 
-def opsQ : Ops Rat := { sqrt := fun _ => 1, powHalf := fun x => x, sq := fun x => x * x, pi := 3 }
+def opsQ : Ops Rat := { sqrt := fun _ => 1, powHalf := fun x => x, sq := fun x => x * x, pi := 3, ltInf := fun _ => true }
 
 /-- a path a–b–c–d with unit weights, 4 movable nodes of radius 1 in a 10 × 8 die, one iteration allowed. -/
 def adjQ : List (List (Edge Rat)) := [[⟨1, 1⟩], [⟨0, 1⟩, ⟨2, 1⟩], [⟨1, 1⟩, ⟨3, 1⟩], [⟨2, 1⟩]]
@@ -299,6 +369,42 @@ example : (normalize [(3 : Rat), -4, 1 / 2] [5, 2, 1] [false, false, true]) = .o
   decide +kernel
 
 example : (recenter ((5 : Rat), 5) [⟨1, 1, 2, 2⟩, ⟨1, 5 / 2, 1, 1⟩]).toBool = true := by decide +kernel
+
+/-- an admissible netlist: three soft modules, a movable hard module with two rectangles, a fixed terminal;
+    four nets (one with three pins); 10 × 8 die; two trials, two iterations each. -/
+def modsQ : List (SMod Rat Unit) :=
+  [⟨none, 3, false, false, false, [], ()⟩,
+   ⟨none, 3, false, false, false, [], ()⟩,
+   ⟨some (2, 2), 3, false, true, false, [⟨2, 2, 1, 1⟩, ⟨2, 3, 1, 1⟩], ()⟩,
+   ⟨none, 3, false, false, false, [], ()⟩,
+   ⟨some (9, 7), 0, true, true, true, [], ()⟩]
+def netsQ : List (SNet Rat) := [⟨[0, 1], 1⟩, ⟨[1, 2, 4], 2⟩, ⟨[2, 3], 1⟩, ⟨[3, 0], 1⟩]
+def drawsQ : List Rat := [1, 3, 5, 8, 2, 5, 1, 6, 1, 2, 3, 4, 5, 6, 7, 8, 1, 2, 3, 4]
+
+/-- the run returns … -/
+example : (spectralLayout opsQ modsQ netsQ 10 8 2 drawsQ 2).toBool = true := by decide +kernel
+example : (spectralLayoutTrace opsQ modsQ netsQ 10 8 2 drawsQ 2).toBool = true := by decide +kernel
+
+/-- … on an admissible input … -/
+example : Admissible opsQ modsQ netsQ (10 : Rat) 8 where
+  movable := by decide
+  onNet := by
+    intro i hi
+    have : i < 5 := hi
+    match i, this with
+    | 0, _ => exact ⟨⟨[0, 1], 1⟩, by simp [netsQ], by simp⟩
+    | 1, _ => exact ⟨⟨[0, 1], 1⟩, by simp [netsQ], by simp⟩
+    | 2, _ => exact ⟨⟨[2, 3], 1⟩, by simp [netsQ], by simp⟩
+    | 3, _ => exact ⟨⟨[2, 3], 1⟩, by simp [netsQ], by simp⟩
+    | 4, _ => exact ⟨⟨[1, 2, 4], 2⟩, by simp [netsQ], by simp⟩
+  fits := by intro m hm; simp [opsQ]; norm_num
+
+/-- … and no movable coordinate of the winning trial is in the `1e-9` region (so the escape hypothesis of the
+    headline theorem is met by every movable module of this run). -/
+example : (match spectralLayoutTrace opsQ modsQ netsQ 10 8 2 drawsQ 2 with
+    | .ok (_, b) => (List.range 4).all fun i =>
+        decide ((delta : Rat) < |vat b.preX i|) && decide ((delta : Rat) < |vat b.preY i|)
+    | .error _ => false) = true := by decide +kernel
 
 end Examples
 
